@@ -76,6 +76,7 @@ type vkName struct {
 var vkNames = []vkName{
 	{"a.s.t.", 0},       // secure, NSEC, multi-RR RRset
 	{"nx.s.t.", 0},      // secure NXDOMAIN (NSEC)
+	{"a.b.nx.s.t.", 0},  // a name two labels below a denied name: with minimisation on the NXDOMAIN comes back for a MINIMISED question (RFC 8020 shortcut)
 	{"www.s.t.", 0},     // in-zone CNAME
 	{"x.w.s.t.", 0},     // wildcard expansion (NSEC)
 	{"exact.w.s.t.", 0}, // existing name next to a wildcard
